@@ -177,6 +177,7 @@ def outcome_signature(seed, n_unions):
 
 def check_c12(v: Verdict, t1_summary, n_unions, hash_seeds):
     skip = bool((t1_summary.get("disambig") or {}).get("skip_noninit", True))
+    fac_flag = bool((t1_summary.get("disambig") or {}).get("factory_is_default", True))
     intern = Interner()
     sig = outcome_signature(v.seed * 7919 + 12, n_unions)
     cases, meta = [], []
@@ -192,10 +193,15 @@ def check_c12(v: Verdict, t1_summary, n_unions, hash_seeds):
         hist["literal_discriminator_unions"] += all(any(f[3] for f in fs) for _, fs in specs)
 
         def coq_class(i):
+            # the class as the SOURCE sees it (Model/DisambigSrc.v): a default is a value or a factory; attrs keeps both in `default`,
+            # a dataclass field declared with default_factory leaves `default` unset -- read through the flag T1 found in the source
             kind, fs = specs[i]
-            return "{| dc_id := %s; dc_fields := %s |}" % (cN(i + 1), c_list(
-                "{| df_name := %s; df_required := %s; df_init := %s; df_lit := %s |}" % (
-                    cN(intern(nm)), c_bool(req), c_bool(init),
+
+            def fac(nm):
+                return kind == "dataclass" and (i + ord(nm[0])) % 3 == 0          # (the rule `build` uses for factory defaults)
+            return "(read_class %s {| sc_id := %s; sc_fields := %s |})" % (c_bool(fac_flag), cN(i + 1), c_list(
+                "{| sf_name := %s; sf_default_value := %s; sf_default_factory := %s; sf_init := %s; sf_lit := %s |}" % (
+                    cN(intern(nm)), c_bool((not req) and not fac(nm)), c_bool((not req) and fac(nm)), c_bool(init),
                     "None" if lit is None else "(Some %s)" % c_list(cN(intern(("v", x))) for x in lit)) for nm, req, init, lit in fs))
         created_by_order = {}
         for order, created, res in u["orders"]:
@@ -258,7 +264,7 @@ def check_c12(v: Verdict, t1_summary, n_unions, hash_seeds):
             except Exception:
                 diff = (p.stderr or other)[-400:]
             v.violation("outcome of automatic disambiguation depends on PYTHONHASHSEED", {"lane": "DIS/C12", "hash_seed": hs, "difference": diff})
-    pre = ("From V.Model Require Import Base Disambig.\n"
+    pre = ("From V.Model Require Import Base Disambig DisambigSrc.\n"
            "Definition ropt_eqb (a : result N) (b : option N) : bool := match a, b with Ok x, Some y => N.eqb x y | Err _, None => true | _, _ => false end.\n")
     bad = []
     shard = 300
